@@ -246,6 +246,52 @@ def b_topology_parameters(S):
     )
 
 
+def b_branch_boundary(S):
+    """elementwise reading of branches_intersect_boundary / branch_intersects_target_area_boundary / bool_arrays_sum"""
+    C = gconsts(S)
+    tree = ast.parse(S[PARAMS])
+    fn = find_func(tree, "branches_intersect_boundary")
+    assigns = [st for st in fn.body if isinstance(st, ast.Assign)]
+    if len(assigns) != 1:
+        raise Untranslatable("branches_intersect_boundary shape")
+    v = assigns[0].value
+    ok = (
+        isinstance(v, ast.UnaryOp) and isinstance(v.op, ast.Invert) and isinstance(v.operand, ast.Call)
+        and ast.unparse(v.operand.func) == "np.isin" and len(v.operand.args) == 2
+        and ast.unparse(v.operand.args[0]) == "branch_types" and isinstance(v.operand.args[1], ast.Tuple)
+    )
+    rets = [st for st in fn.body if isinstance(st, ast.Return)]
+    if not ok or len(rets) != 1 or ast.unparse(rets[0].value) != ast.unparse(assigns[0].targets[0]):
+        raise Untranslatable("branches_intersect_boundary is not `~np.isin(branch_types, (...))`")
+    elts = []
+    for e in v.operand.args[1].elts:
+        if not (isinstance(e, ast.Name) and e.id in C):
+            raise Untranslatable("non-constant branch class in isin tuple")
+        elts.append(C[e.id])
+    out = "def branch_intersects_boundary (branch_type : String) : Bool :=\n  (!(List.elem branch_type [" + ", ".join(elts) + "]))\n\n"
+    # cuts_through in Network.branch_intersects_target_area_boundary
+    ntree = ast.parse(S[NETWORK])
+    nfn = find_func(ntree, "Network.branch_intersects_target_area_boundary")
+    comps = [n for n in ast.walk(nfn) if isinstance(n, ast.ListComp) and ast.unparse(n.generators[0].iter) == "self.branch_types"]
+    if len(comps) != 1:
+        raise Untranslatable("cuts_through comprehension not found")
+    out += translate_expression(S[NETWORK], comps[0].elt, "branch_cuts_through", {"branch_type": "String"}, "Bool", C, types={"branch_type": "String"})
+    calls = [n for n in ast.walk(nfn) if isinstance(n, ast.Call) and ast.unparse(n.func) == "bool_arrays_sum"]
+    if len(calls) != 1 or [ast.unparse(a) for a in calls[0].args] != ["intersecting_lines", "cuts_through_lines"]:
+        raise Untranslatable("bool_arrays_sum call shape")
+    # bool_arrays_sum: elementwise int(a) + int(b)
+    gfn = find_func(ast.parse(S[GENERAL]), "bool_arrays_sum")
+    comps = [n for n in ast.walk(gfn) if isinstance(n, ast.ListComp)]
+    if len(comps) != 1 or ast.unparse(comps[0].generators[0].iter) != "zip(arr_1, arr_2)":
+        raise Untranslatable("bool_arrays_sum shape")
+    elt = ast.unparse(comps[0].elt)
+    if elt != "int(val_1) + int(val_2)":
+        raise Untranslatable(f"bool_arrays_sum element {elt}")
+    out += "\ndef bool_sum (val_1 : Bool) (val_2 : Bool) : Nat :=\n  ((if val_1 then 1 else 0) + (if val_2 then 1 else 0))\n"
+    out += "\ndef branch_boundary_count (branch_type : String) : Nat :=\n  bool_sum (branch_intersects_boundary branch_type) (branch_cuts_through branch_type)\n"
+    return out
+
+
 # ---------------------------------------------------------------- C15
 
 
@@ -336,6 +382,7 @@ ITEMS: List[Item] = [
     Item("LengthFilters", BAN, ["C01", "C04"], b_length_filters),
     Item("SnapConstants", BAN, ["C01", "C03", "C06", "C16"], b_snap_constants),
     Item("BoundaryWeight", GENERAL, ["C08"], b_boundary_weight),
+    Item("BranchBoundary", PARAMS, ["C08"], b_branch_boundary, extra_modules=[GENERAL, NETWORK]),
     Item("ParamTable", GENERAL, ["C08", "C20"], b_param_table),
     Item("TopologyParameters", PARAMS, ["C08", "C11"], b_topology_parameters, deps=["ParamTable"], extra_modules=[GENERAL]),
     Item("IsSet", GENERAL, ["C15"], b_is_set),
